@@ -389,9 +389,13 @@ def impl_phase(case):
             wrong = [("last-bit", bytes(bad)), ("first-bit", bytes([M2[0] ^ 0x80]) + M2[1:]), ("client-proof-echoed", impl["M1"]),
                      ("all-zero", bytes(64))]
             # ... and a reply without a (non-empty, single, uncontradicted) proof must never let the controller go on
-            P["pair_setup_shapes"] = [(shape, must, impl_pair_setup(code, a, salt, B_b, M2, variant=shape)[2]) for shape, must in M4_SHAPES]
+            # (the full alphabet on the first exchanges of a run, a short one on the others: the verdict is the same function)
+            PHASES[0] += 1
+            full = PHASES[0] <= 3
+            shapes = M4_SHAPES if full else [x for x in M4_SHAPES if x[0] in ("no-proof", "empty-proof", "proof-twice-wrong-last")]
+            P["pair_setup_shapes"] = [(shape, must, impl_pair_setup(code, a, salt, B_b, M2, variant=shape)[2]) for shape, must in shapes]
             P["pair_setup_variants"] = []
-            for n, variant in enumerate(M4_VARIANTS[1:]):
+            for n, variant in enumerate(M4_VARIANTS[1:] if full else M4_VARIANTS[1:2]):
                 P["pair_setup_variants"].append((variant, "correct", True, impl_pair_setup(code, a, salt, B_b, M2, variant=variant)[2]))
                 for label, m in (wrong if n == 0 else wrong[n % len(wrong):][:2]):
                     P["pair_setup_variants"].append((variant, label, False, impl_pair_setup(code, a, salt, B_b, m, variant=variant)[2]))
@@ -484,6 +488,7 @@ def model_exprs(P):
     return exprs
 
 
+PHASES = [0]               # conformant exchanges driven through pair-setup so far in this process
 FRESH_BUDGET = [8]      # at most this many fresh-process re-runs per check (each ~1 s)
 
 
@@ -874,6 +879,7 @@ def run(ctx):
 
     # ---- implementation + independent accessory, serially and in stream order (one process: the sequences are real histories)
     FRESH_BUDGET[0] = 8
+    PHASES[0] = 0
     plain_P = [impl_phase(c) for c in cases]
     seq_P = [[impl_phase(st) for st in sq["steps"]] for sq in seqs]
     srv_cases = gen_srpserver(tier, cases) if not ctx.get("replay") else []
